@@ -69,6 +69,13 @@ def check_property(pid, tier="quick", seed=0):
     extract.ensure_path()  # candidate generators use the working tree's tables
     mod = importlib.import_module(f"props.{pid}")
     units = mod.units(tier)
+    # Soundness precondition of the modular argument, checked on every run of every property: each function is verified against
+    # fresh objects, which speaks for all histories only if nothing in the code modules is shared between objects or calls
+    # (no module-level or class-level mutable state, no mutable default arguments, no store whose root is not a local or self).
+    if not any(u.name == "C13.frame_scan" for u in units):
+        from props import C13 as _c13
+        from props.common import ground_unit as _gu
+        units.append(_gu("common.no_shared_mutable_state", _c13.scan))
     results = runner.run_units(units, tier)
     obs = fold_covers([o for r in results for o in r["obligations"]])
     errors = [r for r in results if r["error"]]
@@ -76,6 +83,8 @@ def check_property(pid, tier="quick", seed=0):
     nocanary = [r for r in results if r["kind"] == "func" and not r["error"] and not r["unsupported"] and not r["canary"]]
     empty = [r for r in results if not r["error"] and not r["unsupported"] and not r["obligations"]]
     refuted = [o for o in obs if o["verdict"] == "refuted"]
+    # a unit whose every path ends in a refuted obligation (e.g. it now always raises) has no postcondition state to be vacuous about
+    nocanary = [r for r in nocanary if not any(o["verdict"] == "refuted" and o.get("unit") == r["unit"] for o in r["obligations"])]
     unknown = [o for o in obs if o["verdict"] == "unknown"]
     proved = [o for o in obs if o["verdict"] == "proved"]
 
@@ -97,7 +106,11 @@ def check_property(pid, tier="quick", seed=0):
             continue  # counted in evidence (refuted), not written out again
         if fn not in replay_cache or o["kind"] in ("ground", "lemma"):
             try:
-                replay_cache[fn] = (mod.replay(o, seed) if hasattr(mod, "replay") else None) or {}
+                if o["name"].startswith(("frame.", "api.")):  # the common obligations have their own replay searches
+                    from props.replays import generic_replay as _gr
+                    replay_cache[fn] = _gr(o, seed) or {}
+                else:
+                    replay_cache[fn] = (mod.replay(o, seed) if hasattr(mod, "replay") else None) or {}
             except Exception as e:  # noqa
                 replay_cache[fn] = {"error": repr(e)}
         rep = replay_cache[fn]
